@@ -66,23 +66,45 @@ func (se *expression) Type(scope ReadOnlyScope) (ast.ValueType, error) {
 	return se.nodeEvaluator.Type(scope)
 }
 
-func (se *expression) EvalBool(scope *Scope) (bool, error) {
+// recoverEval reports a panic raised during evaluation (integer division by zero,
+// a failing function) as an evaluation error, as Eval does.
+func recoverEval(err *error) {
+	if r := recover(); r != nil {
+		switch r := r.(type) {
+		case string:
+			*err = errors.New(r)
+		case error:
+			*err = r
+		case fmt.Stringer:
+			*err = errors.New(r.String())
+		default:
+			*err = fmt.Errorf("%v", r)
+		}
+	}
+}
+
+func (se *expression) EvalBool(scope *Scope) (v bool, err error) {
+	defer recoverEval(&err)
 	return se.nodeEvaluator.EvalBool(scope, se.executionState)
 }
 
-func (se *expression) EvalInt(scope *Scope) (int64, error) {
+func (se *expression) EvalInt(scope *Scope) (v int64, err error) {
+	defer recoverEval(&err)
 	return se.nodeEvaluator.EvalInt(scope, se.executionState)
 }
 
-func (se *expression) EvalFloat(scope *Scope) (float64, error) {
+func (se *expression) EvalFloat(scope *Scope) (v float64, err error) {
+	defer recoverEval(&err)
 	return se.nodeEvaluator.EvalFloat(scope, se.executionState)
 }
 
-func (se *expression) EvalString(scope *Scope) (string, error) {
+func (se *expression) EvalString(scope *Scope) (v string, err error) {
+	defer recoverEval(&err)
 	return se.nodeEvaluator.EvalString(scope, se.executionState)
 }
 
-func (se *expression) EvalDuration(scope *Scope) (time.Duration, error) {
+func (se *expression) EvalDuration(scope *Scope) (v time.Duration, err error) {
+	defer recoverEval(&err)
 	return se.nodeEvaluator.EvalDuration(scope, se.executionState)
 }
 
